@@ -1,0 +1,230 @@
+// Copyright 2023 The Go Authors. All rights reserved.
+// Use of this source code is governed by a BSD-style
+// license that can be found in the LICENSE file.
+
+//go:build verif && (!goexperiment.jsonv2 || !go1.25)
+
+package jsonwire
+
+// Specification of JSON string literals (RFC 8259, section 7; RFC 8785,
+// section 3.2.2.2 for the canonical spelling), written unit by unit: the body
+// of a literal is a sequence of units, each of which is a plain ASCII byte, a
+// well-formed multi-byte UTF-8 sequence, a two-character escape, a \uXXXX
+// escape, or — when UTF-8 is validated — a correctly paired \uD8xx\uDCxx.
+
+const (
+	uPlain     = iota // one unescaped ASCII byte 0x20..0x7F except " and \
+	uMulti            // well-formed UTF-8 sequence of 2..4 bytes
+	uEsc2             // \" \\ \/ \b \f \n \r \t
+	uEscU             // \uXXXX (any value when not validating; a non-surrogate when validating)
+	uEscPair          // \uD8xx-\uDBxx followed by \uDCxx-\uDFxx (validating only)
+	uRaw              // one ill-formed byte, tolerated (not validating)
+	uClose            // the closing quote
+	uEOF              // input ends inside (or before) this unit
+	uControl          // unescaped control character
+	uBadEscape        // malformed escape sequence (including unpaired surrogates when validating)
+	uBadUTF8          // ill-formed UTF-8 (validating)
+)
+
+//@ spec hex4OK
+func hex4OK(b []byte, k int) bool {
+	return isHex(b[k]) && isHex(b[k+1]) && isHex(b[k+2]) && isHex(b[k+3])
+}
+
+//@ spec hex4
+func hex4(b []byte, k int) uint16 {
+	return hexVal(b[k])*4096 + hexVal(b[k+1])*256 + hexVal(b[k+2])*16 + hexVal(b[k+3])
+}
+
+// escPrefixAt: the bytes present in b[k:] are admissible as a truncated \uXXXX.
+//
+//@ spec escPrefixAt
+func escPrefixAt(b []byte, k int, lower bool) bool {
+	return (k+0 >= len(b) || escPrefixOK(b[k+0], 0, lower)) &&
+		(k+1 >= len(b) || escPrefixOK(b[k+1], 1, lower)) &&
+		(k+2 >= len(b) || escPrefixOK(b[k+2], 2, lower)) &&
+		(k+3 >= len(b) || escPrefixOK(b[k+3], 3, lower)) &&
+		(k+4 >= len(b) || escPrefixOK(b[k+4], 4, lower)) &&
+		(k+5 >= len(b) || escPrefixOK(b[k+5], 5, lower))
+}
+
+//@ spec escKind
+func escKind(b []byte, k int, validate bool) int {
+	if len(b) < k+2 {
+		return uEOF
+	}
+	e := b[k+1]
+	if e == '"' || e == '\\' || e == '/' || e == 'b' || e == 'f' || e == 'n' || e == 'r' || e == 't' {
+		return uEsc2
+	}
+	if e != 'u' {
+		return uBadEscape
+	}
+	if len(b) < k+6 {
+		if escPrefixAt(b, k, false) {
+			return uEOF
+		}
+		return uBadEscape
+	}
+	if !hex4OK(b, k+2) {
+		return uBadEscape
+	}
+	v1 := hex4(b, k+2)
+	if !validate || !(0xD800 <= v1 && v1 < 0xE000) {
+		return uEscU
+	}
+	if len(b) < k+12 {
+		if escPrefixAt(b, k+6, true) {
+			return uEOF
+		}
+		return uBadEscape
+	}
+	if b[k+6] != '\\' || b[k+7] != 'u' || !hex4OK(b, k+8) {
+		return uBadEscape
+	}
+	v2 := hex4(b, k+8)
+	if v1 < 0xDC00 && 0xDC00 <= v2 && v2 < 0xE000 {
+		return uEscPair
+	}
+	return uBadEscape
+}
+
+// strUnitKind classifies what starts at b[k] inside a string body.
+//
+//@ spec strUnitKind
+func strUnitKind(b []byte, k int, validate bool) int {
+	if k >= len(b) {
+		return uEOF
+	}
+	c := b[k]
+	if c == '"' {
+		return uClose
+	}
+	if c < 0x20 {
+		return uControl
+	}
+	if c == '\\' {
+		return escKind(b, k, validate)
+	}
+	if c < 0x80 {
+		return uPlain
+	}
+	l := utf8Len(b, k)
+	if l > 0 {
+		return uMulti
+	}
+	if l < 0 {
+		return uEOF
+	}
+	if validate {
+		return uBadUTF8
+	}
+	return uRaw
+}
+
+//@ spec strUnitLen
+func strUnitLen(b []byte, k int, kind int) int {
+	switch kind {
+	case uMulti:
+		return utf8Len(b, k)
+	case uEsc2:
+		return 2
+	case uEscU:
+		return 6
+	case uEscPair:
+		return 12
+	}
+	return 1
+}
+
+// unitNonVerbatim: the unit's bytes are not its meaning (an escape or a byte
+// that decodes to U+FFFD).
+//
+//@ spec unitNonVerbatim
+func unitNonVerbatim(kind int) bool {
+	return kind == uEsc2 || kind == uEscU || kind == uEscPair || kind == uRaw
+}
+
+//@ spec isUpperHex
+func isUpperHex(c byte) bool { return 'A' <= c && c <= 'F' }
+
+// unitNonCanonical: the unit is not spelled as RFC 8785 section 3.2.2.2
+// prescribes (only ", \ and control characters are escaped; \b \f \n \r \t use
+// the short form; other control characters use lower-case \u00xx).
+//
+//@ spec unitNonCanonical
+func unitNonCanonical(b []byte, k int, kind int) bool {
+	switch kind {
+	case uEsc2:
+		return b[k+1] == '/'
+	case uEscU:
+		v := hex4(b, k+2)
+		return v >= 0x20 || v == '\b' || v == '\f' || v == '\n' || v == '\r' || v == '\t' ||
+			isUpperHex(b[k+2]) || isUpperHex(b[k+3]) || isUpperHex(b[k+4]) || isUpperHex(b[k+5])
+	case uEscPair, uRaw:
+		return true
+	}
+	return false
+}
+
+// strScan is the outcome of scanning a string body: where and why the scan
+// stops, and whether any unit before that point was non-verbatim / non-canonical.
+type strScan struct {
+	pos      int  // position of the closing quote, of the incomplete unit, or of the offending unit
+	kind     int  // uClose, uEOF, uControl, uBadEscape or uBadUTF8
+	nonVerb  bool // some unit's bytes are not its meaning (so the body must be unescaped)
+	nonCanon bool // some unit is not in RFC 8785 spelling
+}
+
+// strScanFrom scans whole units from k, carrying the two flags.
+//
+//@ spec strScanFrom
+func strScanFrom(b []byte, k int, validate bool, nonVerb, nonCanon bool) strScan {
+	kind := strUnitKind(b, k, validate)
+	if kind >= uClose || k < 0 {
+		return strScan{k, kind, nonVerb, nonCanon}
+	}
+	return strScanFrom(b, k+strUnitLen(b, k, kind), validate, nonVerb || unitNonVerbatim(kind), nonCanon || unitNonCanonical(b, k, kind))
+}
+
+//@ func (*ValueFlags).Join
+//@ inline
+
+//@ func (ValueFlags).IsVerbatim
+//@ inline
+
+//@ func (ValueFlags).IsCanonical
+//@ inline
+
+//@ func ConsumeStringResumable
+//@ split
+//@ property C01 C03 C05 C08 C11 C13 C20
+//@ requires flags != nil && 0 <= resumeOffset && resumeOffset <= len(b)
+//@ modifies *flags
+//@ ensures empty: resumeOffset == 0 && len(b) == 0 ==> n == 0 && isUnexpectedEOF(err)
+//@ ensures noquote: resumeOffset == 0 && len(b) > 0 && b[0] != '"' ==> n == 0 && err != nil && !isUnexpectedEOF(err) && err != ErrInvalidUTF8
+//@ ensures ok-iff: resumeOffset > 0 || (len(b) > 0 && b[0] == '"') ==> (err == nil) == (strScanFrom(b, max(resumeOffset, 1), validateUTF8, old(*flags)%2 == 1, old(*flags)/2%2 == 1).kind == uClose)
+//@ ensures ok-n: (resumeOffset > 0 || (len(b) > 0 && b[0] == '"')) && err == nil ==> n == strScanFrom(b, max(resumeOffset, 1), validateUTF8, old(*flags)%2 == 1, old(*flags)/2%2 == 1).pos+1
+//@ ensures eof-iff: resumeOffset > 0 || (len(b) > 0 && b[0] == '"') ==> isUnexpectedEOF(err) == (strScanFrom(b, max(resumeOffset, 1), validateUTF8, old(*flags)%2 == 1, old(*flags)/2%2 == 1).kind == uEOF)
+//@ ensures utf8-iff: resumeOffset > 0 || (len(b) > 0 && b[0] == '"') ==> (err == ErrInvalidUTF8) == (strScanFrom(b, max(resumeOffset, 1), validateUTF8, old(*flags)%2 == 1, old(*flags)/2%2 == 1).kind == uBadUTF8)
+//@ ensures err-n: (resumeOffset > 0 || (len(b) > 0 && b[0] == '"')) && err != nil ==> n == strScanFrom(b, max(resumeOffset, 1), validateUTF8, old(*flags)%2 == 1, old(*flags)/2%2 == 1).pos
+//@ ensures flags-mono: (old(*flags)%2 == 1 ==> *flags%2 == 1) && (old(*flags)/2%2 == 1 ==> *flags/2%2 == 1) && *flags/4 == old(*flags)/4
+//@ ensures verbatim-exact: (resumeOffset > 0 || (len(b) > 0 && b[0] == '"')) && err == nil ==> (*flags%2 == 1) == strScanFrom(b, max(resumeOffset, 1), validateUTF8, old(*flags)%2 == 1, old(*flags)/2%2 == 1).nonVerb
+//@ ensures canonical-exact: (resumeOffset > 0 || (len(b) > 0 && b[0] == '"')) && err == nil ==> (*flags/2%2 == 1) == strScanFrom(b, max(resumeOffset, 1), validateUTF8, old(*flags)%2 == 1, old(*flags)/2%2 == 1).nonCanon
+//@ loop 0 invariant range: 1 <= n && n <= len(b) && n >= old(resumeOffset) && (old(resumeOffset) > 0 || b[0] == '"')
+//@ loop 0 invariant scan: strScanFrom(b, n, validateUTF8, *flags%2 == 1, *flags/2%2 == 1) == strScanFrom(b, max(old(resumeOffset), 1), validateUTF8, old(*flags)%2 == 1, old(*flags)/2%2 == 1)
+//@ loop 0 invariant flags-mono: (old(*flags)%2 == 1 ==> *flags%2 == 1) && (old(*flags)/2%2 == 1 ==> *flags/2%2 == 1) && *flags/4 == old(*flags)/4
+//@ loop 1 invariant range: 1 <= n && n <= len(b) && n >= old(resumeOffset) && (old(resumeOffset) > 0 || b[0] == '"')
+//@ loop 1 invariant scan: strScanFrom(b, n, validateUTF8, *flags%2 == 1, *flags/2%2 == 1) == strScanFrom(b, max(old(resumeOffset), 1), validateUTF8, old(*flags)%2 == 1, old(*flags)/2%2 == 1)
+//@ loop 1 decreases len(b) - n
+//@ loop 2 invariant flags-mono: *flags%2 == 1 && *flags/4 == entry(*flags)/4
+//@ loop 2 invariant canon: (*flags/2%2 == 1) == (entry(*flags)/2%2 == 1 || (rangeindex >= 0 && isUpperHex(b[n+2])) || (rangeindex >= 1 && isUpperHex(b[n+3])) || (rangeindex >= 2 && isUpperHex(b[n+4])) || (rangeindex >= 3 && isUpperHex(b[n+5])))
+//@ at call utf8.DecodeRune#0 assert len: utf8Len(b[n:], 0) == utf8Len(b, n)
+//@ at call utf8.DecodeRune#0 assert multi: rn > 1 ==> strUnitKind(b, n, validateUTF8) == uMulti && utf8Len(b, n) == rn
+//@ at call utf8.DecodeRune#0 assert ascii: rn <= 1 && r != utf8.RuneError ==> b[n] < 0x80 && r == rune(b[n])
+//@ at call utf8.DecodeRune#0 assert bad: rn <= 1 && r == utf8.RuneError ==> b[n] >= 0x80 && utf8Len(b, n) <= 0
+//@ at call hasEscapedUTF16Prefix#0 assert callResult == escPrefixAt(b, n, false)
+//@ at call hasEscapedUTF16Prefix#1 assert callResult == escPrefixAt(b, n, true)
+//@ at call parseHexUint16#0 assert ok == hex4OK(b, n+2) && (ok ==> v1 == hex4(b, n+2))
+//@ at call parseHexUint16#1 assert callResult1 == hex4OK(b, n+2) && (callResult1 ==> callResult0 == hex4(b, n+2))
+//@ at call utf8.FullRune#0 assert callResult == (utf8Len(b, n) != -1)
